@@ -10,7 +10,16 @@ use raft::StateRole;
 /// 2 = tick() until the election timeout fires.
 /// The shape fixes applied / commit / entry types (the step scans (applied, commit]).
 pub fn hup_step(s: &mut Src, sh: &Shape, kind: u8) {
+    hup_step_paged(s, sh, kind, None)
+}
+
+/// `page`: Some(limit) sets `max_committed_size_per_ready`, which pages the scan of the
+/// unapplied committed entries (limit 0 = one entry per page).
+pub fn hup_step_paged(s: &mut Src, sh: &Shape, kind: u8, page: Option<u64>) {
     let (mut r, g) = mk_raft(s, sh);
+    if let Some(p) = page {
+        r.set_max_committed_size_per_ready(p);
+    }
     let (term0, role0, vote0) = (r.term, r.state, r.vote);
     let pv0 = r.verif_private();
     let pending = g.conf_entry_in(g.applied, g.committed);
